@@ -568,6 +568,21 @@ func runC15(c *Ctx) {
 			if !ok || callName(ci) != "(*"+relQctx+".Context).RespOpt" {
 				return
 			}
+			// helper form: the value is handed to a NEW helper that appends its parameter exactly under `!= nil`
+			for _, r := range referrers(ci) {
+				hc, isCall := r.(*ssa.Call)
+				if !isCall {
+					continue
+				}
+				for _, a := range hc.Call.Args {
+					if a == ssa.Value(ci) {
+						continue
+					}
+					if dec, st, n, why := respOptAppend(h, a, hc); dec == ci && st != nil && n == 1 && why == "" {
+						good = true
+					}
+				}
+			}
 			// its value is appended to resp.Extra only under != nil
 			for _, r := range referrers(ci) {
 				if mi, ok := r.(*ssa.MakeInterface); ok {
@@ -614,6 +629,16 @@ func runC15(c *Ctx) {
 				}
 			}
 		})
+		// section writes inside NEW helpers called with a packed reply count once per call
+		if sites.primary != nil {
+			for _, ps := range append([]*packSite{sites.primary}, sites.fallbacks...) {
+				for _, hs := range helperFieldStores(h, ps.msg) {
+					if hs.key == "github.com/miekg/dns.Msg.Extra" || hs.key == "github.com/miekg/dns.Msg.Answer" || hs.key == "github.com/miekg/dns.Msg.Ns" {
+						nSec++
+					}
+				}
+			}
+		}
 		all := sites.primary != nil && sites.problem == ""
 		nPack := 0
 		keeps := true
